@@ -13,7 +13,9 @@ vars == <<cs, res, pc>>
 
 S(c) == StrV(c)
 Half == Rat(3, 2)
+\* 123456.789 needs nine significant digits, 16777217 = 2^24 + 1 is not a float32, 2500000 prints as 2.5e+06
 Scalars == {Null, BoolV(TRUE), BoolV(FALSE), NumV(0), NumV(1), NumV(-1), Half, NumV(3),
+            Rat(123456789, 1000), NumV(16777217), NumV(2500000),
             S(<<>>), S(<<97>>), S(<<97, 66>>), S(<<49>>), S(<<50, 46, 53>>), S(<<45, 51>>), S(<<233, 76, 963, 962, 1071>>), S(<<97, 98, 99>>)}
 Arr(e) == ArrV(e)
 Arrays == {Arr(<<>>), Arr(<<NumV(1)>>), Arr(<<NumV(1), NumV(2), NumV(3)>>), Arr(<<Arr(<<NumV(1), NumV(2)>>), Arr(<<NumV(3)>>)>>),
